@@ -35,6 +35,15 @@ fn check_dropping_the_last_receiver(n: usize) {
     core::mem::forget(s);
 }
 
+/// the constructor: one live handle per counted side, channel open -- so "count == number of live handles" holds from the start
+#[kani::proof]
+fn fresh_pair_counts_one_handle_per_side() {
+    let (s, r) = generic_oneshot_channel::<NoopLock, u8>();
+
+    assert!(!closed_flag(&s.inner.channel), "[C11] a new shared channel is open");
+    core::mem::forget((s, r));
+}
+
 unsafe fn nw_clone(_: *const ()) -> core::task::RawWaker {
     core::task::RawWaker::new(core::ptr::null(), &NOOP)
 }
